@@ -41,6 +41,7 @@ type heldAt struct {
 	pos  int
 	got  []int
 	want []int
+	prev []int // an even earlier result, scribbled over up to its capacity once newer results exist
 }
 
 func (h *heldAt) verify(k *K) bool {
@@ -66,7 +67,21 @@ func checkAtHeld(k *K, idx *regions.Index, starts, ends []int, i int, held *held
 			if !held.verify(k) {
 				return false
 			}
-			*held = heldAt{pos: i, got: h, want: want}
+			older := held.got
+			*held = heldAt{pos: i, got: h, want: want, prev: older}
+			if older != nil {
+				// the caller appends to / fills an older result up to its capacity:
+				// newer results and later answers must not change
+				full := older[:cap(older)]
+				for j := range full {
+					full[j] = -999
+				}
+				_ = append(older, 77, 78, 79)
+				if !sameInts(h, want) {
+					k.Failf("at-results-share-memory", "writing into the spare capacity of an earlier At result changed a later result: At(%d) reads %v, want %v", i, h, want)
+					return false
+				}
+			}
 		}
 	}
 	got := idx.At(i)
